@@ -74,8 +74,40 @@ def gen_inputs(tier, rng):
         pairs = qg.present_pairs([{"sp": untyped(j["sp"]), "doc": untyped(j["doc"])} for j in jobs])
         filters += [qg.rand_filter(rng, rng.randint(0, 2), pairs) for _ in range(nfilt)]
         filters += rng.sample(qg.MALFORMED, 3)
-        descs.append({"jobs": jobs, "filters": [typed(f) for f in filters]})
+        filters += shared_leaf_filters(rng, pairs)
+        if i % 5 == 0:
+            # integers that no double represents exactly next to their float neighbours (the int/float dual lookup
+            # must compare exactly, as Python's == does)
+            for j in jobs:
+                if rng.random() < 0.8:
+                    sp = untyped(j["sp"]); sp["seed"] = rng.choice(BIG_NUMS); j["sp"] = typed(sp)
+            filters += [{"seed": v} for v in rng.sample(BIG_NUMS, 4)] + [{"seed": {"$eq": rng.choice(BIG_NUMS)}},
+                                                                        {"seed": {"$in": rng.sample(BIG_NUMS, 2)}}]
+        descs.append({"jobs": jobs, "filters": [typed(f) for f in filters], "pseed": rng.randint(0, 10 ** 9)})
     return descs
+
+
+BIG_NUMS = [2 ** 53, 2 ** 53 + 1, float(2 ** 53), 2 ** 53 + 2, float(2 ** 53 + 2), -(2 ** 53 + 1), float(-(2 ** 53)), 2 ** 60 + 1, float(2 ** 60)]
+
+
+def shared_leaf_filters(rng, pairs):
+    """compound filters whose operands SHARE a leaf expression (same key, same value), the shared leaf coming first in
+    an operand and being followed by another condition"""
+    out = []
+    if not pairs:
+        return out
+    for _ in range(3):
+        k, v = rng.choice(pairs)
+        others = [p for p in pairs if p[0] != k]
+        if not others:
+            continue
+        ops = []
+        for _ in range(rng.randint(2, 3)):
+            k2, v2 = rng.choice(others)
+            ops.append({k: v, k2: v2})
+        out.append({rng.choice(["$or", "$and"]): ops})
+        out.append({"$or": ops, k: v})
+    return out
 
 
 def run_filters(project, filters):
@@ -96,6 +128,23 @@ def run_case(desc):
         project = qg.build_project(d, jobs)
         recs = qg.listing(project)
         results = run_filters(project, [json.loads(json.dumps(f)) for f in filters])
+        # phase 2: the job documents change (no job added or removed) and the SAME Project handle is queried again
+        import random
+        rng2 = random.Random(desc.get("pseed", 7))
+        phase2 = None
+        docf = [f for f in filters if "doc" in json.dumps(f)][:12]
+        if recs and docf and "pseed" in desc:
+            for r in recs:
+                if rng2.random() < 0.6:
+                    newdoc = qg.rand_doc(rng2)
+                    job = project.open_job(id=r["id"])
+                    if newdoc is None:
+                        job.doc.clear()
+                    else:
+                        job.doc.reset(newdoc)
+            recs2 = qg.listing(project)
+            res2 = run_filters(project, [json.loads(json.dumps(f)) for f in docf])
+            phase2 = (recs2, docf, res2)
     cname = qg.corpus_name(recs)
     prelude = [(cname, f"Definition {cname} : list job := {qg.coq_jobs(recs)}.")]
     cases = []
@@ -111,6 +160,20 @@ def run_case(desc):
         cases.append(Case(coq, {"jobs": desc["jobs"], "filters": [typed(f)]},
                           obs={"listing": [r["id"] for r in recs], "result": val}, nontrivial=nontriv,
                           key=cname + json.dumps(typed(f), sort_keys=True), kinds=kinds, prelude=prelude))
+    if phase2 is not None:
+        recs2, docf, res2 = phase2
+        cname2 = qg.corpus_name(recs2) + "_p2"
+        prelude2 = [(cname2, f"Definition {cname2} : list job := {qg.coq_jobs(recs2)}.")]
+        for f, (kind, val) in zip(docf, res2):
+            obs = ("(ObsIds %s)" % coq_list([coq_str(i) for i in val], "str")) if kind == "ids" else f"(ObsExn {val})"
+            coq = "{| c6_jobs := %s; c6_filter := %s; c6_regex := %s; c6_obs := %s |}" % (
+                cname2, coq_json(f), qg.coq_regex_table(qg.regex_table(recs2, f)), obs)
+            cases.append(Case(coq, {"jobs": desc["jobs"], "filters": [typed(f)], "phase2_docs": [typed(r["doc"]) for r in recs2],
+                                    "pseed": desc.get("pseed")},
+                              obs={"listing": [r["id"] for r in recs2], "result": val},
+                              nontrivial=(kind == "exn") or (0 < len(val) < len(recs2)),
+                              key=cname2 + json.dumps(typed(f), sort_keys=True), kinds=["requery-after-doc-change"],
+                              prelude=prelude2))
     return cases
 
 
